@@ -1254,6 +1254,7 @@ struct Gen {
       for (int i = 0; i < k; ++i) pool_logm.push_back((int)r.range(0, cfg.max_log2n));
     }
     P.ntasks = cfg.ntasks;
+    P.persist_tmp = r.chance(25, 100);
     if (cfg.ntasks == 0) {
       cur_task = -1;
       int want = (int)r.range(cfg.min_calls, cfg.max_calls);
